@@ -564,6 +564,20 @@ package task
 //@ func (*Executor).setupFuzzyModel
 //@   ensures e.Taskfile != nil ==> e.fuzzyModel != nil                                                                 [C15]
 
+// ---- C15: watch mode runs what was asked for ---------------------------------------------------------------------
+// The watcher starts one run per requested call, under the requested name: it does not resolve the names itself
+// (two names that lead to the same wildcard task are two runs, each with its own MATCH), and it neither drops nor
+// rewrites a call.
+//@ func (*Executor).watchTasks
+//@   allow go
+//@   nosite (*Executor).GetTask                                                                                        [C15]
+//@   nosite (*Executor).FindMatchingTasks                                                                              [C15]
+
+// ---- C20 / C13: consent -----------------------------------------------------------------------------------------
+// The only way the executor comes to assume "yes" is the option built from the --yes flag; the logger takes it from
+// the executor when it is set up. No mode (--dry, --status, no terminal ...) turns it on.
+//@ callers WithAssumeYes : flags.(*flagsOption).ApplyToExecutor                                                    [C20,C13]
+
 // ---- C18: goroutines started by Task write no captured variable without a lock (watch mode is outside C18) -----
 //@ spawned_writes : except (*Executor).watchTasks closeOnInterrupt (*Executor).InterceptInterruptSignals               [C18]
 
@@ -649,7 +663,7 @@ package task
 //@   site append#1 requires arg1[0].IgnoreError == cmd.IgnoreError && arg1[0].Silent == cmd.Silent && arg1[0].Defer == cmd.Defer   [C03,C02,C14]
 //@   site append#1 requires (arg1[0].Set == cmd.Set || iscopy(arg1[0].Set, cmd.Set)) && (arg1[0].Shopt == cmd.Shopt || iscopy(arg1[0].Shopt, cmd.Shopt)) && (arg1[0].Platforms == cmd.Platforms || iscopy(arg1[0].Platforms, cmd.Platforms))   [C03,C02]
 //@   site append#2 requires arg1[0].IgnoreError == cmd.IgnoreError && arg1[0].Silent == cmd.Silent && arg1[0].Defer == cmd.Defer   [C03,C02,C14]
-//@   site append#2 requires arg1[0].Cmd == cmd.Cmd && arg1[0].Task == cmd.Task   -- deferred commands are templated later, when they run   [C14]
+//@   site append#2 requires arg1[0].Cmd == cmd.Cmd && arg1[0].Task == cmd.Task   -- deferred commands are templated later, when they run - and only then: ONCE   [C14,C19]
 //@   site append#3 requires arg1[0].IgnoreError == cmd.IgnoreError && arg1[0].Silent == cmd.Silent && arg1[0].Defer == cmd.Defer   [C03,C02,C14]
 //@   site append#3 requires (arg1[0].Set == cmd.Set || iscopy(arg1[0].Set, cmd.Set)) && (arg1[0].Shopt == cmd.Shopt || iscopy(arg1[0].Shopt, cmd.Shopt)) && (arg1[0].Platforms == cmd.Platforms || iscopy(arg1[0].Platforms, cmd.Platforms))   [C03,C02]
 //@   site append#4 requires arg1[0].Silent == dep.Silent                                                       [C01]
